@@ -221,6 +221,36 @@ func (tr *FnCtx) finish() {
 	if tr.Spec != nil && tr.Spec.HasMod && !tr.Spec.Trusted {
 		tr.frameObligations()
 	}
+	// loop invariants attached to a loop that does not exist any more are lost proofs
+	if tr.Spec != nil {
+		for k, ls := range tr.Spec.Loops {
+			found := false
+			for _, li := range tr.loopOf {
+				if li.ordinal == k {
+					found = true
+				}
+			}
+			if !found {
+				for _, cl := range ls.Invariants {
+					tr.obls = append(tr.obls, &Obligation{Name: fmt.Sprintf("%s/loop%d/inv-entry[%s]", tr.Short, k, cl.Label), Fn: tr.Short, Kind: "invariant", Prefix: len(tr.cmds), Goal: "false",
+						Src: fmt.Sprintf("loop %d does not exist in the function any more: %s", k, cl.Src), Ctx: tr})
+				}
+			}
+		}
+	}
+	// anchored asserts whose anchor was never reached (call site gone) are lost proofs
+	if tr.Spec != nil {
+		for _, at := range tr.Spec.Ats {
+			if !tr.atsUsed[at] {
+				name := tr.Short + "/at[" + at.Anchor + "]"
+				if at.Kind == "assert" {
+					name = tr.Short + "/assert[" + at.Label + "]"
+				}
+				tr.obls = append(tr.obls, &Obligation{Name: name, Fn: tr.Short, Kind: "assert", Prefix: len(tr.cmds), Goal: "false",
+					Src: "anchor '" + at.Anchor + "' does not occur in the function any more: " + at.Src, Ctx: tr})
+			}
+		}
+	}
 	// vacuity canary: some return must be reachable under all assumptions
 	var gs []string
 	for _, r := range tr.rets {
@@ -408,6 +438,7 @@ func (tr *FnCtx) seenVars(li *loopInfo, st *State, env map[string]*Val) {
 }
 
 func (tr *FnCtx) loopEntry(li *loopInfo, st *State, entryVals map[*ssa.Phi]*Val) {
+	tr.runAts(st, fmt.Sprintf("loop %d", li.ordinal), nil)
 	ls := tr.loopSpec(li)
 	li.preState = st.clone()
 	if ls == nil {
@@ -1217,7 +1248,7 @@ func (tr *FnCtx) applyContract(st *State, f *ssa.Function, spec *FuncSpec, metho
 	for _, cl := range spec.Ensures {
 		tr.assume(tr.evalClause(post, cl))
 	}
-	tr.runAts(st, fmt.Sprintf("after %s#%d", calleeName, k), vars)
+	tr.runAts(st, fmt.Sprintf("after %s#%d", calleeName, k), post.vars)
 	if f != nil && tr.lockSweep {
 		// balanced lock protocol of the callee (proved for it as lockproto[balanced])
 		if _, listed := tr.modTable(spec, pkg)["$held"]; !listed || !spec.HasMod {
@@ -1248,6 +1279,11 @@ func (tr *FnCtx) runAts(st *State, anchor string, extra map[string]*Val) {
 		}
 		tr.atsUsed[at] = true
 		vars := tr.nameEnv(tr.curBlk, len(tr.curBlk.Instrs))
+		for k, v := range extra { // callee parameter names (and results for 'after' anchors), unless shadowed by a local
+			if _, ok := vars[k]; !ok {
+				vars[k] = v
+			}
+		}
 		env := tr.newEnv(st, tr.entry, vars)
 		switch at.Kind {
 		case "assert":
@@ -1255,6 +1291,7 @@ func (tr *FnCtx) runAts(st *State, anchor string, extra map[string]*Val) {
 				defer func() {
 					if r := recover(); r != nil {
 						tr.specErrors = append(tr.specErrors, fmt.Sprintf("at %s: %v", anchor, r))
+						tr.oblige(fmt.Sprintf("%s/assert[%s]", tr.Short, at.Label), "assert", "false", at.Src+" (cannot be evaluated on this tree: "+fmt.Sprint(r)+")")
 					}
 				}()
 				tr.oblige(fmt.Sprintf("%s/assert[%s]", tr.Short, at.Label), "assert", env.evalBool(at.E), at.Src)
@@ -1296,12 +1333,14 @@ func (tr *FnCtx) runAts(st *State, anchor string, extra map[string]*Val) {
 				}
 			}()
 		case "apply":
-			tr.applyLemma(st, at, env)
+			tr.applyLemma(st, at, env, false)
+		case "use":
+			tr.applyLemma(st, at, env, true)
 		}
 	}
 }
 
-func (tr *FnCtx) applyLemma(st *State, at *AtSpec, env *Env) {
+func (tr *FnCtx) applyLemma(st *State, at *AtSpec, env *Env, asImplication bool) {
 	defer func() {
 		if r := recover(); r != nil {
 			tr.specErrors = append(tr.specErrors, fmt.Sprintf("apply at %s: %v", at.Anchor, r))
@@ -1324,6 +1363,22 @@ func (tr *FnCtx) applyLemma(st *State, at *AtSpec, env *Env) {
 		vars[p.Name] = v
 	}
 	le := &Env{tr: tr, vars: vars, st: st, old: tr.entry, pkg: tr.W.Pkgs[lm.Pkg].Types, allocOld: tr.allocEntry}
+	if asImplication {
+		// 'use': only for trusted lemmas (axioms): assume (pre ==> post) without proving pre here
+		if !lm.Trusted {
+			panic("'use' is only allowed for trusted lemmas; apply " + lm.Name + " instead")
+		}
+		var pres, posts []string
+		for _, cl := range lm.Pre {
+			pres = append(pres, tr.evalClause(le, cl))
+		}
+		for _, cl := range lm.Post {
+			posts = append(posts, tr.evalClause(le, cl))
+		}
+		tr.assume(implies(and(pres...), and(posts...)))
+		tr.lemmasUsed[lm.Name] = true
+		return
+	}
 	tr.ghostCounts["apply:"+lm.Name]++
 	for _, cl := range lm.Pre {
 		tr.oblige(fmt.Sprintf("%s/apply[%s.%s]#%d", tr.Short, lm.Name, cl.Label, tr.ghostCounts["apply:"+lm.Name]), "lemma-pre", tr.evalClause(le, cl), cl.Src)
